@@ -3,6 +3,7 @@ package sql
 import (
 	"expvar"
 	"fmt"
+	"io"
 	"math"
 	"math/rand/v2"
 	"strconv"
@@ -55,22 +56,41 @@ func Process(stmts []*proto.Statement, rwrand, rwtime bool) (retErr error) {
 			!ContainsExplain(lowered) {
 			continue
 		}
-		parsed, err := rsql.NewParser(strings.NewReader(stmts[i].Sql)).ParseStatement()
-		if err != nil {
-			continue
+		// The text may hold more than one statement. Rewrite each of them and,
+		// if any was rewritten, replace the text by all of them.
+		parser := rsql.NewParser(strings.NewReader(stmts[i].Sql))
+		var parts []string
+		complete, rewritten, ret := true, false, false
+		for {
+			parsed, err := parser.ParseStatement()
+			if err == io.EOF {
+				break
+			} else if err != nil {
+				complete = false
+				break
+			}
+			if len(parts) == 0 {
+				_, stmts[i].SqlExplain = parsed.(*sql.ExplainStatement)
+			}
+			rewriter := NewRewriter()
+			rewriter.RewriteRand = rwrand
+			rewriter.RewriteTime = rwtime
+			rwStmt, rw, r, err := rewriter.Do(parsed)
+			if err != nil {
+				complete = false
+				break
+			}
+			parts = append(parts, rwStmt.String())
+			rewritten = rewritten || rw
+			ret = ret || r
 		}
-		_, stmts[i].SqlExplain = parsed.(*sql.ExplainStatement)
-		rewriter := NewRewriter()
-		rewriter.RewriteRand = rwrand
-		rewriter.RewriteTime = rwtime
-		rwStmt, rewritten, ret, err := rewriter.Do(parsed)
-		if err != nil {
+		if len(parts) == 0 {
 			continue
 		}
 
-		if rewritten {
+		if complete && rewritten {
 			stats.Add(numRewrittenStmts, 1)
-			stmts[i].Sql = rwStmt.String()
+			stmts[i].Sql = strings.Join(parts, "; ")
 		}
 		stmts[i].ForceQuery = ret
 	}
